@@ -29,6 +29,9 @@ pub struct Case {
     pub probe2_id: u8,
     pub probe2_len: u16,
     pub probe2_cuts: Vec<u16>,
+    /// probe 2's first fragment carries an extension chain that must come back with the PDU
+    #[serde(default)]
+    pub probe2_ext: bool,
 }
 
 fn strategy(t: Tier) -> BoxedStrategy<Case> {
@@ -48,9 +51,9 @@ fn strategy(t: Tier) -> BoxedStrategy<Case> {
         lab_addr_or_bcast(),
         prop_oneof![3 => 0u8..8, 1 => any::<u8>()],
         any::<u16>(),
-        prop::collection::vec(1u16..100, 1..4),
+        (prop::collection::vec(1u16..100, 1..4), any::<bool>()),
     )
-        .prop_map(|(slots, pdu_size, prefix, probe1_lab, probe1_len, probe2_lab, probe2_id, probe2_len, probe2_cuts)| Case { slots, pdu_size, prefix, probe1_lab, probe1_len, probe2_lab, probe2_id, probe2_len, probe2_cuts }))
+        .prop_map(|(slots, pdu_size, prefix, probe1_lab, probe1_len, probe2_lab, probe2_id, probe2_len, (probe2_cuts, probe2_ext))| Case { slots, pdu_size, prefix, probe1_lab, probe1_len, probe2_lab, probe2_id, probe2_len, probe2_cuts, probe2_ext }))
 }
 
 fn check(c: &Case, st: &mut Stats) -> Result<(), String> {
@@ -130,13 +133,16 @@ fn check(c: &Case, st: &mut Stats) -> Result<(), String> {
     let l2 = l2.min(ps).max(1);
     let pdu2 = pdu_bytes(l2, 0xBBBB);
     let cuts: Vec<usize> = c.probe2_cuts.iter().map(|x| (*x as usize).min(l2.saturating_sub(1))).collect();
-    let train = ref_train(c.probe2_lab, 0x0800, c.probe2_id, &pdu2, &cuts);
+    let exts2: Vec<ExtSpec> = if c.probe2_ext { vec![ExtSpec { id: 0x0203, data: vec![0xE1, 0xE2] }, ExtSpec { id: 0x0003, data: vec![7, 8] }] } else { vec![] };
+    let want_exts: Vec<(u16, Vec<u8>)> = exts2.iter().map(|e| (e.id, e.data.clone())).collect();
+    st.class_if(c.probe2_ext, "probe2-with-extensions");
+    let train = ref_train_ext(c.probe2_lab, 0x0800, c.probe2_id, &pdu2, &cuts, &exts2);
     for (i, p) in train.iter().enumerate() {
         let r = call_decap(&mut d, p);
         let last = i + 1 == train.len();
         match &r {
             Ok(Ok((DecapStatus::FragmentedPkt(_), n))) if !last && *n == p.len() => {}
-            Ok(Ok((DecapStatus::CompletedPkt(b, md), n))) if last && *n == p.len() && md.pdu_len() == l2 && b[..l2] == pdu2[..] && md.protocol_type() == 0x0800 && Lab::of(&md.label()) == c.probe2_lab => {}
+            Ok(Ok((DecapStatus::CompletedPkt(b, md), n))) if last && *n == p.len() && md.pdu_len() == l2 && b[..l2] == pdu2[..] && md.protocol_type() == 0x0800 && Lab::of(&md.label()) == c.probe2_lab && md.extensions().iter().map(super::c13::ext_bytes).collect::<Vec<_>>() == want_exts => {}
             o => return st.violation("probe2-not-delivered", format!("slots={} pdu_size={} prefix={:?}: valid train on frag id {} ({} packets): packet {} {} -> {}", c.slots, c.pdu_size, c.prefix, c.probe2_id, train.len(), i, hex(p), show_dec(o))),
         }
     }
@@ -159,7 +165,7 @@ pub fn property() -> Property {
             fuzz_decode: Some(crate::fuzzdec::c16_case),
             strategy,
             check,
-            required_classes: &["prefix-leaves-open-context", "prefix-ends-with-empty-free-list", "prefix-ends-with-error"],
+            required_classes: &["prefix-leaves-open-context", "prefix-ends-with-empty-free-list", "prefix-ends-with-error", "probe2-with-extensions"],
         })],
     }
 }
